@@ -272,7 +272,8 @@ class Harness:
 
         def extract_rec(y, ng):
             r = real_extract(y, ng)
-            tr_self.extract.append((y, ng, r))
+            snap = tuple(x.copy() if hasattr(x, "copy") else x for x in r)  # apply_gbs mutates its arguments in place
+            tr_self.extract.append((y, ng, r, snap))
             return r
 
         def gbs_rec(o, f, chi, prev, ng):
